@@ -896,9 +896,9 @@ impl Engine for C14 {
         vec!["kernel file system (SimFs journal, prefix materialisation)", "HTTP transport (SimBoC)", "clock", "entropy", "process boundary"]
     }
     fn required_probes(&self, tier: Tier) -> Vec<&'static str> {
-        let mut v = vec![
+        let v = vec![
+            // (how many files and write calls a run uses is the implementation's business: reported, not required)
             "probe.victim_wrote_cache",
-            "probe.two_year_files_written",
             "probe.older_complete_file_present",
             "probe.file_size_tiny",
             "probe.file_size_one_buffer",
@@ -913,9 +913,7 @@ impl Engine for C14 {
             "fault.write_error_disk_full",
             "fault.clock_set_ahead_in_an_earlier_killed_run",
         ];
-        if tier == Tier::Thorough {
-            v.push("probe.file_written_in_several_write_calls");
-        }
+        let _ = tier;
         v
     }
     fn exhaustive_note(&self) -> Option<String> {
